@@ -519,7 +519,10 @@ func (l *Lexer) readHTML() string {
 			break
 		}
 
-		if escapedDir || escapedBraces {
+		// drop the backslash that escapes the directive or the braces. It is
+		// not in the buffer when the character before it was consumed by
+		// something else, like a comment that ends with "--}\"
+		if (escapedDir || escapedBraces) && out.Len() > 0 {
 			out.Truncate(out.Len() - 1)
 		}
 
